@@ -271,7 +271,7 @@ func RunCheck(spec *PropSpec, opts RunOpts) int {
 							inconc = append(inconc, fmt.Sprintf("ENGINE-MISMATCH: witness of %s%v reaches %q symbolically but natively: %s %s", c.Harness, c.Shape, c.Label, o.Result, o.Label))
 						}
 					case "known":
-						if o.Result == "fail" || o.Result == "panic" {
+						if o.Result == "fail" || o.Result == "panic" || contains(o.Known, c.KnownID) {
 							validated++
 							knownConfirmed = append(knownConfirmed, c)
 						} else {
